@@ -42,10 +42,11 @@ HARNESS = ["zz_verif_forwarder_test.go"]
 CODES = ["unavailable", "resource_exhausted", "internal", "canceled", "deadline_exceeded", "plain"]
 # (cfg, must_hold, workers, timeout)
 PROFILES = {
-    "quick": dict(design=[("fwd_k1.cfg", True, 6, 900), ("fwd_t3s.cfg", True, 3, 900), ("fwd_live_q.cfg", True, 3, 900),
+    "quick": dict(design=[("fwd_k1.cfg", True, 6, 900), ("fwd_bp.cfg", True, 3, 900), ("mut_handofftimeout.cfg", False, 1, 600), ("fwd_t3s.cfg", True, 3, 900), ("fwd_live_q.cfg", True, 3, 900),
                           ("mut_nolatchmsg.cfg", False, 1, 600), ("mut_nowake.cfg", False, 1, 600)],   # generous: a timeout under load is exit 2, not a verdict
                   gen="sim_t.cfg", keep=8),
-    "thorough": dict(design=[("fwd_q.cfg", True, 8, 840), ("fwd_t3n.cfg", True, 6, 840), ("fwd_t3s.cfg", True, 2, 600),
+    "thorough": dict(design=[("fwd_q.cfg", True, 8, 840), ("fwd_bp.cfg", True, 3, 900), ("fwd_bp_race.cfg", True, 4, 900),
+                             ("fwd_bp_live.cfg", True, 2, 900), ("mut_handofftimeout.cfg", False, 1, 600), ("mut_handofftimeout_sync.cfg", False, 1, 600), ("fwd_t3n.cfg", True, 6, 840), ("fwd_t3s.cfg", True, 2, 600),
                              ("fwd_live.cfg", True, 2, 800), ("fwd_draft.cfg", True, 2, 600),
                              ("mut_nolatchmsg.cfg", False, 1, 300), ("mut_nolatchack_noclosesend.cfg", False, 1, 300),
                              ("mut_nolatchack.cfg", False, 1, 600), ("mut_nolatchack_coop.cfg", True, 1, 600), ("mut_noclosesend.cfg", True, 1, 600),
@@ -53,6 +54,29 @@ PROFILES = {
                      gen="sim_t.cfg", keep=1),
 }
 OBS_RE = re.compile(r'<<(\d+), "(\w+)", "([^"]*)", (-?\d+)>>')
+
+
+def bp_schedules():
+    """Back-pressure (Forwarder!NetCap): the peer of one direction stops taking for a while - the proxy's Send in that direction
+    waits (as with an exhausted flow-control window) while the sender goes on - and then takes again, or the stream ends
+    (every end mode) while the Send still waits.  Constructed: the design covers the interleavings (fwd_bp*.cfg), these
+    are the environment's timing classes the eager scripts never produce."""
+    def C(c, m="-"):
+        return {"c": c, "m": m}
+    out = []
+    ends = [("SE", "eof"), ("SE", "err"), ("IE", "closesend"), ("IE", "cancel"), ("L", "-")]
+    for d, send, other_end in (("T", "S", ("SE", "eof")), ("S", "I", ("IE", "closesend"))):
+        hold, rel = C(d + "H"), C(d + "R")
+        for mode in ("default", "lcm"):
+            for src in ("coop", "silent"):
+                out.append(dict(id="bp-%s-release-%s-%s" % (d, mode, src), mode=mode, src=src,
+                                cmds=[hold] + [C(send)] * 4 + [C("W", "2500"), rel, C("B"), C(send), C("B"), C(*other_end)]))
+            for e in ends:
+                out.append(dict(id="bp-%s-%s%s-%s" % (d, e[0], e[1], mode), mode=mode, src="coop",
+                                cmds=[hold] + [C(send)] * 4 + [C("W", "1300"), C(*e), C("W", "300"), rel]))
+    for i, x in enumerate(out):
+        x.update(fault={"k": "none", "p": 0}, sync=False, payload=("inc", "flat")[i % 2], code=CODES[i % len(CODES)])
+    return out
 
 
 def klass(s):
@@ -121,7 +145,7 @@ def run(c, a):
                 raise Broken("TLC did not complete on %s: %s" % (cfg, r.error_text[-600:]))
         else:
             if not r.violated:
-                raise Broken("design mutant %s was expected to violate NoStuck and did not (vacuous invariant?)" % cfg)
+                raise Broken("design mutant %s was expected to violate its invariant and did not (vacuous invariant?)" % cfg)
             mutants.append("%s: %s" % (cfg[:-4], ",".join(r.violated[:1])))
     if not a.replay:
         if len(scripts) < 100:
@@ -151,6 +175,7 @@ def run(c, a):
                 g = groups[k]
                 n = max(min(4, len(g)), len(g) // prof["keep"])
                 scheds += rng.sample(g, n)
+        scheds += bp_schedules()
         random.Random(c.seed).shuffle(scheds)
     else:
         total_scheds = 1
@@ -209,6 +234,8 @@ def run(c, a):
         for clause in sorted(first):
             detail, num, e = first[clause]
             cause = klass(sc) if "cmds" in sc else "?"
+            if str(sc.get("id", "")).startswith("bp-"):
+                cause = "backpressure-%s-%s" % (sc["id"].split("-")[1], cause)
             key = "%s/%s" % (clause, cause)
             causes[key] = causes.get(key, 0) + 1
             what = {"order": "a peer received something that is not the next element the other peer sent",
